@@ -18,6 +18,7 @@ type solverRun struct {
 	errs    []string
 	secs    float64
 	times   map[int]float64
+	covers  map[int]string
 }
 
 var solverCmds = map[string]func(file string, perMs int) []string{
@@ -29,7 +30,7 @@ var solverCmds = map[string]func(file string, perMs int) []string{
 }
 
 func runSolver(solver, file string, perMs int, totalSec int) *solverRun {
-	r := &solverRun{solver: solver, results: map[int]string{}, times: map[int]float64{}}
+	r := &solverRun{solver: solver, results: map[int]string{}, times: map[int]float64{}, covers: map[int]string{}}
 	args := solverCmds[solver](file, perMs)
 	ctx, cancel := context.WithTimeout(context.Background(), time.Duration(totalSec)*time.Second)
 	defer cancel()
@@ -41,15 +42,21 @@ func runSolver(solver, file string, perMs int, totalSec int) *solverRun {
 	_ = cmd.Run()
 	r.secs = time.Since(t0).Seconds()
 	cur := -2 // -1 smoke
+	cov := -1
 	for _, line := range strings.Split(out.String(), "\n") {
 		line = strings.Trim(strings.TrimSpace(line), "\"")
 		switch {
+		case strings.HasPrefix(line, "@cover "):
+			fmt.Sscanf(line, "@cover %d", &cov)
+			cur = -3
 		case strings.HasPrefix(line, "@obl "):
 			fmt.Sscanf(line, "@obl %d", &cur)
 		case line == "@smoke":
 			cur = -1
 		case line == "sat" || line == "unsat" || line == "unknown" || line == "timeout":
-			if cur == -1 {
+			if cur == -3 {
+				r.covers[cov] = line
+			} else if cur == -1 {
 				r.smoke = line
 			} else if cur >= 0 {
 				r.results[cur] = line
